@@ -15,6 +15,7 @@
 package event
 
 import (
+	encoding "encoding/binary"
 	"errors"
 
 	"github.com/emitter-io/emitter/internal/message"
@@ -25,6 +26,9 @@ import (
 
 // errInvalidKey is returned when an event key is too short to be decoded.
 var errInvalidKey = errors.New("event: invalid key")
+
+// errInvalidValue is returned when an event value declares more than it can hold.
+var errInvalidValue = errors.New("event: invalid value")
 
 // Various replicated event types.
 const (
@@ -159,9 +163,39 @@ func (e Connection) Val() []byte {
 	return buffer
 }
 
+// validConnection checks that the lengths declared inside an encoded connection fit the
+// bytes which follow them, since the decoder allocates for the declared lengths.
+func validConnection(b []byte) bool {
+	if len(b) < 2 {
+		return false
+	}
+
+	// Skip the will flag and retain, then the will qos
+	_, k := encoding.Uvarint(b[2:])
+	if k <= 0 {
+		return false
+	}
+
+	// What follows are the will topic, will message, client id and username
+	b = b[2+k:]
+	for i := 0; i < 4; i++ {
+		if !message.FitsCount(b, 1) {
+			return false
+		}
+
+		n, k := encoding.Uvarint(b)
+		b = b[k+int(n):]
+	}
+	return true
+}
+
 // decodeConnection decodes the event
 func decodeConnection(k string, v []byte) (e Connection, err error) {
 	if len(v) > 0 {
+		if !validConnection(v) {
+			return e, errInvalidValue
+		}
+
 		err = binary.Unmarshal(v, &e)
 	}
 
